@@ -270,3 +270,111 @@ def _hierarchy():
 
 
 TABLES = [_Table('T:error-hierarchy', 'C18', _hierarchy)]
+
+
+# ====================================================================================
+# proved part: progress of the tokeniser.  Token.__init__ (shared by every token class in Parser.filters; none overrides it)
+# either raises TokenError or has consumed at least one character, whatever the class's regex matches and whatever its
+# process() extracts (both abstract here).  With the loop-shape facts below, len(expr) strictly decreases in every iteration
+# of Parser.ast's main loop, so the parser terminates on every input.
+from pyvc.contract import Contract, ObjT, FnT, OneOf, ConstT, IntT, StrT, RecordT, TypeGen, OpaqueT
+from pyvc.values import Obj as _Obj
+
+
+from formulas.errors import TokenError as _TokenError
+
+
+class _MatchT(TypeGen):
+    """A regex match object: only end(0) is used, an integer between 0 and the length of the subject (assumed of `regex`)."""
+
+    def make(self, ctx, name):
+        import formulas.tokens as _T
+        o = _Obj(_FakeMatch, {})
+        o.method_overrides = {'end': FnT([], result=IntT(0, 10 ** 6)).make(ctx, name + '.end')}
+        return o
+
+
+class _FakeMatch:
+    pass
+
+
+class _TokenT(ObjT):
+    def __init__(self, cls):
+        super().__init__(cls, {})
+
+    def make(self, ctx, name):
+        o = super().make(ctx, name)
+        o.method_overrides = {
+            'match': FnT([], result=OneOf(ConstT(None), _MatchT())).make(ctx, name + '.match'),
+            'process': FnT([], result=OneOf(ConstT({}), RecordT({'name': StrT()}))).make(ctx, name + '.process'),
+        }
+        return o
+
+
+def lemma_token_init(self, s):
+    from formulas.tokens import Token
+    Token.__init__(self, s)
+    return self.end_match
+
+
+c_tok = Contract(lambda: lemma_token_init, dict(self=_TokenT('formulas.tokens.operand:Number'), s=StrT()), 'C18',
+                 name='Token.__init__', use=[], frame=('self',))
+CONTRACTS.append(c_tok)
+
+
+@c_tok.ensures('a-constructed-token-has-consumed-at-least-one-character', 'P')
+def _(self, s, result):
+    return isinstance(result, int) and result >= 1 and len(self.attr) > 0
+
+
+@c_tok.raises(_TokenError, 'only-the-token-error-signals-no-match', 'P')
+def _(self, s, exc):
+    return True
+
+
+@c_tok.canary('canary:may-consume-nothing')
+def _(self, s, result):
+    return result == 0
+
+
+def _loop_shape():
+    """Ground facts about the AST of Parser.ast (kind S): the main loop is `while expr:`; every normal completion of one
+    iteration goes through `expr = expr[token.end_match:]`; the for-else raises; no filter class overrides __init__."""
+    import ast as _ast
+    from pyvc.interp import file_ast
+    import formulas.parser as P
+    from formulas.tokens import Token
+    tree = file_ast(P.__file__)[0]
+    fn = next(n for n in _ast.walk(tree) if isinstance(n, _ast.FunctionDef) and n.name == 'ast')
+    loops = [n for n in _ast.walk(fn) if isinstance(n, _ast.While)]
+    main = [w for w in loops if isinstance(w.test, _ast.Name) and w.test.id == 'expr']
+    out = [dict(name='T:loop/main-loop-is-while-expr', kind='S', ok=len(main) == 1, detail='while loops over expr: %d' % len(main), witness=None)]
+    if len(main) == 1:
+        w = main[0]
+        body_ok = len(w.body) == 1 and isinstance(w.body[0], _ast.For) and bool(w.body[0].orelse) and \
+            isinstance(w.body[0].orelse[-1], _ast.Raise)
+        out.append(dict(name='T:loop/body-is-for-over-filters-whose-else-raises', kind='S', ok=body_ok, detail=_ast.dump(w.body[0])[:200], witness=None))
+        assigns = [n for n in _ast.walk(w) if isinstance(n, _ast.Assign) and any(isinstance(t, _ast.Name) and t.id == 'expr' for t in n.targets)]
+        shrink = [a for a in assigns if _ast.unparse(a.value).replace(' ', '') == 'expr[token.end_match:]']
+        out.append(dict(name='T:loop/expr-only-changes-by-dropping-the-consumed-prefix', kind='S', ok=len(assigns) == len(shrink) == 1,
+                        detail='assignments to expr in the loop: %r' % [_ast.unparse(a) for a in assigns], witness=None))
+        tries = [n for n in _ast.walk(w) if isinstance(n, _ast.Try)]
+        brk_ok = False
+        if len(tries) == 1:
+            srcs = [_ast.unparse(x).replace(' ', '') for x in tries[0].body]
+            brk_ok = srcs[-1] == 'break' and 'expr=expr[token.end_match:]' in srcs and srcs.index('expr=expr[token.end_match:]') > 0
+        out.append(dict(name='T:loop/break-only-after-the-prefix-was-dropped', kind='S', ok=brk_ok, detail=repr([_ast.unparse(x) for t in tries for x in t.body])[:300], witness=None))
+    bad = [f.__name__ for f in P.Parser.filters if f.__init__ is not Token.__init__]
+    out.append(dict(name='T:loop/no-filter-class-overrides-the-constructor', kind='S', ok=not bad, detail='overriding: %r' % bad, witness=None))
+    return out
+
+
+TABLES.append(_Table('T:tokeniser-loop-shape', 'C18', _loop_shape))
+PROPERTIES['C18']['explanation'] = (
+    'Proved: every token constructor either raises TokenError or consumes at least one character (Token.__init__ on the real body, regex '
+    'match and process() abstract); ground facts on the AST of Parser.ast: the main loop only continues after dropping the consumed prefix '
+    'and its for-else raises - hence len(expr) strictly decreases and the tokeniser terminates on every input.  ' + PROPERTIES['C18']['explanation'])
+PROPERTIES['C18']['not_proved'] = ['the handlers\' exception sets (only the formula-syntax error escapes) and rejection of malformed text: bounded stages only',
+                                   'termination of the regex engine itself and of schedula graph construction in AstBuilder']
+PROPERTIES['C18']['assumptions'] = PROPERTIES['C18']['assumptions'] + [
+    'a regex match object reports an end position >= 0 (third-party `regex`); a class-specific process() returns a dict']
